@@ -256,6 +256,24 @@ def search(ctx, budget, hints):
                 c_["location"] = [a_, rng.randint(a_ + 2, n_), rng.choice([1, 0])]
                 c_["window"] = c_["location"][1] - a_ + rng.randint(1, 10)
             d_ = dict(sequence=s_, constraints=[c_], objectives=[], settings={}, np_seed=rng.randint(0, 10 ** 6))
+        if i_ % 10 == 4:
+            # GC bounds written as a string of integer percentages, every window exactly ON the lower (or upper) bound
+            w_ = rng.choice([10, 20, 25, 50])
+            ks_ = [k_ for k_ in range(5, 96) if (k_ * w_) % 100 == 0]
+            k_ = rng.choice(ks_)
+            lo_, hi_ = (k_, rng.randint(k_ + 1, 99)) if rng.random() < 0.6 else (rng.randint(1, k_ - 1), k_)
+            unit_ = list("G" * (k_ * w_ // 100) + "A" * (w_ - k_ * w_ // 100))
+            rng.shuffle(unit_)
+            s_ = ("".join(unit_) * 4)[:w_ + rng.randint(0, 2 * w_)]
+            d_ = dict(sequence=s_, constraints=[dict(kind="gcwin", mini=lo_ / 100.0, maxi=hi_ / 100.0, window=w_, location=None, as_string=True)],
+                      objectives=[], settings={}, np_seed=rng.randint(0, 10 ** 6))
+        n += vlib.limited(lambda: oracle_noop(rng, d_, out), 10, 0, tstats)
+    for k_ in range(1, 100):
+        # "k-100%/100bp" on a 100-nt sequence holding exactly k G/C: on the bound, nothing to do
+        unit_ = list("G" * k_ + "A" * (100 - k_))
+        rng.shuffle(unit_)
+        d_ = dict(sequence="".join(unit_), constraints=[dict(kind="gcwin", mini=k_ / 100.0, maxi=1.0, window=100, location=None, as_string=True)],
+                  objectives=[], settings={}, np_seed=k_)
         n += vlib.limited(lambda: oracle_noop(rng, d_, out), 10, 0, tstats)
     for _ in range(600 * budget):
         n += vlib.limited(lambda: oracle_constructor(rng, out), 10, 0, tstats)
